@@ -57,7 +57,12 @@ Receive(c) == /\ out[c] # "idle" /\ sent[c] >= (IF Chunks(out[c]) < Window THEN 
 Event == /\ cut' = [c \in Ctrl |-> cut[c] \/ (out[c] # "idle" /\ sent[c] < Chunks(out[c]) /\ ~Guard("notifications_wait_for_response"))]
          /\ last' = [a |-> "Event", c |-> "app", k |-> "none", ok |-> TRUE]
          /\ UNCHANGED <<out, buf, owner, sent, tags>>
-Next == (\E c \in Ctrl : (\E k \in {"big", "small"} : Send(c, k)) \/ Write(c) \/ Receive(c)) \/ Event
+\* The accessory sends its periodic keep-alive (an EVENT message without a body) to every connection (hap/keep_alive.go).
+\* Like a notification it must wait for a response in flight (guard keepalives_wait_for_response).
+KeepAlive == /\ cut' = [c \in Ctrl |-> cut[c] \/ (out[c] # "idle" /\ sent[c] < Chunks(out[c]) /\ ~Guard("keepalives_wait_for_response"))]
+             /\ last' = [a |-> "KeepAlive", c |-> "app", k |-> "none", ok |-> TRUE]
+             /\ UNCHANGED <<out, buf, owner, sent, tags>>
+Next == (\E c \in Ctrl : (\E k \in {"big", "small"} : Send(c, k)) \/ Write(c) \/ Receive(c)) \/ Event \/ KeepAlive
 Spec == Init /\ [][Next]_vars
 
 \* ---- C09 under concurrency: every response carries its own content from the first to the last chunk
